@@ -214,7 +214,7 @@ def main():
                 # the recorded finding is about units whose prefix CANNOT be written onto the first factor (its exponent does not divide the
                 # prefix's, or the prefix mixes bases); a unit whose prefix can be pushed (k1, km², ...) and still prints a leading magnitude is new
                 u_ = x.get("unit") or {}
-                pushable = (not isinstance(u_.get("p"), dict)) and bool(u_.get("of")) and u_["of"][0][1] != 0 and u_["p"][1] % abs(u_["of"][0][1]) == 0
+                pushable = (not isinstance(u_.get("p"), dict)) and "of" in u_ and (not u_["of"] or (u_["of"][0][1] != 0 and u_["p"][1] % abs(u_["of"][0][1]) == 0))      # no factor but One: k1
                 c.violation("unprintable:leading-magnitude" if not pushable else f"unprintable:leading-magnitude-although-pushable:{text}",
                             f"str() is {text!r}, which does not parse as a unit ({x['back']['err']})", repl)
             elif text[0] in "0123456789":
